@@ -106,25 +106,43 @@ def h_read(ctx, vi, kind):
     image.setdefault(0, last)
     sa = 9
     u, bank = _mkunit(ctx, kind, sa, bankno, image, last, hole, cls.bank.LockByte is not None)
-    reads = [0]
     faulted = []
 
-    def fault(n, cmd, raw):
-        if cmd.response is None:
+    def mkfault(log):
+        reads = [0]
+
+        def fault(n, cmd, raw):
+            if cmd.response is None:
+                return raw
+            # (queries that are not reads of a memory location - DTR read-backs - do not count)
+            if not type(cmd).__name__.endswith("ReadMemoryLocation"):
+                return raw
+            k = reads[0]
+            reads[0] += 1
+            if mode == 3 and bool(E.eq(k, fstep)):
+                log.append(k)
+                return None if fkind == 0 else F.BackwardFrameError(raw.as_integer if raw is not None else 0)
             return raw
-        k = reads[0]
-        reads[0] += 1
-        if mode == 3 and bool(E.eq(k, fstep)):
-            faulted.append(k)
-            return None if fkind == 0 else F.BackwardFrameError(raw.as_integer if raw is not None else 0)
-        return raw
+        return fault
     before = dict(bank.image)
-    bus = M.Bus([u], fault=fault)
+    bus = M.Bus([u], fault=mkfault(faulted))
     as_int = kind == "gear" and vi % 2 == 0
     st, r = bus.run(cls.read_raw(sa if as_int else _addr(kind, sa)))
     # never written, write-enable never set by a read
     ctx.prove(not bank.writes and all(bank.image[k] is before[k] for k in before),
               "a read wrote to the unit's memory", key=tag + "/wrote")
+    # the interpreted read of the same value from an identical unit, under the same disturbance: whether it
+    # succeeds or fails, the unit's memory is afterwards what it was (lock/latch byte included)
+    st2, v2 = "skipped", None
+    if len(locs) <= 8:
+        # (long strings: interpretation of the bytes is C11's subject and would multiply the paths)
+        u2, bank2 = _mkunit(ctx, kind, sa, bankno, image, last, hole, cls.bank.LockByte is not None)
+        before2 = dict(bank2.image)
+        st2, v2 = M.Bus([u2], fault=mkfault([])).run(cls.read(_addr(kind, sa)))
+        ctx.prove(all(bank2.image[k] is before2[k] or bool(E.eq(bank2.image[k], before2[k])) for k in before2),
+                  "read() of the value left the unit's memory changed%s"
+                  % (" (it failed with %r)" % (v2,) if st2 == "exc" else ""),
+                  key=tag + ("/read-changed-after-error" if st2 == "exc" else "/read-changed"))
     missing = E.or_(*[E.or_(E.gt(l, last), E.eq(l, hole) if hole is not None else False) for l in locs])
     if faulted:
         if fkind == 0:
@@ -149,8 +167,6 @@ def h_read(ctx, vi, kind):
         # long strings: interpretation of the bytes is C11's subject (and would multiply the paths)
         return "ok-raw"
     # interpreted read == from_list on the same image
-    u2, bank2 = _mkunit(ctx, kind, sa, bankno, image, last, hole, cls.bank.LockByte is not None)
-    st2, v2 = M.Bus([u2]).run(cls.read(_addr(kind, sa)))
     lst = [None] * 256
     for l in locs:
         lst[l] = image[l]
